@@ -179,17 +179,30 @@ def _drain_sites(ctx, f, g, q, names, lists_ok, rule_prefix):
             ctx.check(not esc, "isolation/no-escape", okey, "an exception of the trigger leaves the loop", witness=g.describe([o] + esc[:1]))
             for i, (lst, gen) in enumerate(dl):
                 out.append((h, o, (fn, a, kw), lst))
+    # a local bound once to one of the phase lists names the same list object (the attributes are never rebound after __init__:
+    # rule order/phase-lists-never-rebound)
+    alias = {}
+    for st_ in body_walk(f):
+        for t_, v_ in assign_pairs(st_):
+            if isinstance(t_, ast.Name) and src(v_) in ("self.before", "self.during", "self.after"):
+                alias[t_.id] = None if t_.id in alias else src(v_)
+    stores_ = {}
+    for n_ in body_walk(f):
+        if isinstance(n_, ast.Name) and isinstance(n_.ctx, ast.Store):
+            stores_[n_.id] = stores_.get(n_.id, 0) + 1
+    alias = {k: v for k, v in alias.items() if v is not None and stores_.get(k) == 1}
     pops = gfind(g, _is_pop)
     for n in pops:
         st = g.node(n).ast
         call = next(x for x in ast.walk(st) if _is_pop(x))
-        lst = src(call.func.value)
+        raw = src(call.func.value)
+        lst = alias.get(raw, raw)
         if lst not in lists_ok:
             continue
         key = ctx.construct(q, st)
         ctx.check(_pop_first(call), "order/consumed-from-head", key,
                   f"{lst} is filled by append but not consumed from the head: triggers run in reverse registration order")
-        ctx.check(g.guarded(n, lambda e: src(e) == lst, True), "order/consumed-from-head", key + " | <non-empty>", f"pop from {lst} is not guarded by a non-empty test")
+        ctx.check(g.guarded(n, lambda e: src(e) == raw, True), "order/consumed-from-head", key + " | <non-empty>", f"pop from {lst} is not guarded by a non-empty test")
         tg = [t for t, v in assign_pairs(st) if v is call]
         ok = len(tg) == 1 and isinstance(tg[0], (ast.Tuple, ast.List)) and len(tg[0].elts) == 3 and all(isinstance(e, ast.Name) for e in tg[0].elts)
         ctx.check(ok, "once/trigger-unpacked", key, "the popped trigger is not unpacked into (callable, args, kwargs)")
@@ -263,6 +276,14 @@ def check(ctx):
                 v = v.args[0]
             handle_ok = isinstance(v, ast.Tuple) and [src(e) for e in v.elts] == [phase, cb, va, kwa]
         ctx.check(handle_ok, "remove/handle-layout", q, "the handle is not (phase, callable, args, kwargs): removeTrigger cannot find the trigger it denotes")
+
+    # ---- the phase lists keep their identity --------------------
+    with section(ctx, "phase lists never rebound"):
+        from sa.effects import class_accesses
+        for a_ in class_accesses(mod, cls, {"before", "during", "after"}, receivers={"self"}):
+            if a_.kind in ("assign", "rebind-empty", "delete"):
+                ctx.check(a_.func == "_ThreePhaseEvent.__init__", "order/phase-lists-never-rebound", ctx.construct("twisted.internet.base." + a_.func, a_.node),
+                          "a phase list is replaced by a new object while triggers may be registered in / drained from the old one")
 
     # ---- removers ---------------------------------------------------------------------------------------------------------
     with section(ctx, 'removers'):
